@@ -840,10 +840,49 @@ def check_approximation_bypasses_tolerance(ctx: Ctx) -> None:
     c16.check_zero_tolerance(_Prefixed(ctx, "5.11-approximation/"))
 
 
+def check_hash_bucket(ctx: Ctx) -> None:
+    """5.12 two different inputs may share a hash (same names and bytes, other shape): the index list kept under the
+    hash GROWS when a second such input is stored; overwriting it makes the first entry unreachable (the body re-runs
+    for it and duplicates pile up)."""
+    from gv.dataflow import SymValues
+    from gv.props.shared import literal_facts
+
+    f = ctx.index.method(BFC, "BaseFullCache", "__ensure_input_data_exists")
+    con = cname(BFC, "BaseFullCache", "__ensure_input_data_exists")
+    cfg = cfg_of(f)
+    sv = SymValues(f)
+    stores = [s_ for s_ in stmts_of(f) if isinstance(s_, ast.Assign) and isinstance(s_.targets[0], ast.Subscript) and norm_stmt(s_.targets[0].value) == "self._hashes_to_indices"]
+    ctx.need(stores, "__ensure_input_data_exists: no store into _hashes_to_indices")
+    for st in stores:
+        key = norm_stmt(st.targets[0].slice)
+        keys = {key, *sv.texts(st.targets[0].slice)}
+        bucket = tuple(f"self._hashes_to_indices.get({k_}" for k_ in keys) + tuple(f"self._hashes_to_indices[{k_}]" for k_ in keys)
+        # the store happens when the hash is known to be new ...
+        fresh = False
+        for k_, v_ in literal_facts(cfg, cfg.node_of(st)).items():
+            try:
+                e = ast.parse(k_, mode="eval").body
+            except SyntaxError:
+                continue
+            left = e.left if isinstance(e, ast.Compare) and len(e.ops) == 1 and isinstance(e.ops[0], (ast.Is, ast.IsNot)) and isinstance(e.comparators[0], ast.Constant) and e.comparators[0].value is None else None
+            if left is not None and isinstance(left, ast.Name):
+                defs = [d for d in stmts_of(f) if isinstance(d, ast.Assign) and dotted(d.targets[0]) == left.id]
+                is_bucket = bool(defs) and all(any(t.startswith(b) for b in bucket for t in sv.texts(d.value)) for d in defs)
+                if is_bucket and ((isinstance(e.ops[0], ast.Is) and v_) or (isinstance(e.ops[0], ast.IsNot) and not v_)):
+                    fresh = True
+            if (k_.startswith(f"{key} not in self._hashes_to_indices") and v_) or (k_.startswith(f"{key} in self._hashes_to_indices") and not v_):
+                fresh = True
+        # ... or the new list is made from the list already there
+        keeps = all(any(b in t for b in bucket) for t in sv.texts(st.value))
+        ctx.ob("5.12-hash-bucket", con, fresh or keeps, "the index list of a hash that may already have entries is replaced by a new one-element list: the entries stored before under the same hash (same bytes, other shapes) can no longer be found, the discipline runs again for them and duplicates accumulate", node=st, stmt="the bucket of a known hash grows" if not fresh else "the bucket of a new hash is created")
+    ctx.floor("5.12-hash-bucket", 2)
+
+
 def run(ctx: Ctx) -> None:
     check_approximation_bypasses_tolerance(ctx)
     check_execute(ctx)
     check_last_accessed(ctx)
+    check_hash_bucket(ctx)
     check_hit_untouched(ctx)
     check_copies(ctx)
     check_simple_cache(ctx)
@@ -861,6 +900,7 @@ def run(ctx: Ctx) -> None:
 
 # ---------------------------------------------------------------------------
 WITNESSES = [
+    {"name": "hash-bucket-overwritten", "file": BFC, "old": "        self._hashes_to_indices[data_hash] = append(indices, self._max_index.value)", "new": "        self._hashes_to_indices[data_hash] = array([self._max_index.value])", "expect": "5.12"},
     {"name": "seeded-C05-9", "file": "utils/derivatives/derivatives_approx.py", "old": "        self.discipline = discipline\n        self.approx_method = approx_method\n        self.step = step\n        self.generator = self.generator_class(discipline)\n        self.func = None\n        self.approximator = None\n        self.auto_steps = {}\n        self.__par_args = {\n            \"n_processes\": n_processes,\n            \"use_threading\": use_threading,\n            \"wait_time_between_fork\": wait_time_between_fork,\n        }\n        self.__parallel = parallel\n\n    def _create_approximator(\n        self,\n        output_names: Sequence[str],\n        input_names: Sequence[str],\n    ) -> None:\n        \"\"\"Create the Jacobian approximation class.\n\n        Args:\n            input_names: The names of the inputs used to differentiate the outputs.\n            output_names: The names of the outputs to be differentiated.\n\n        Raises:\n            ValueError: If the Jacobian approximation method is unknown.\n        \"\"\"\n        self.func = self.generator.get_function(input_names, output_names)\n        self.approximator = GradientApproximatorFactory().create(\n            self.approx_method,\n            self.func.evaluate,\n            step=self.step,\n            parallel=self.__parallel,\n            **self.__par_args,\n        )\n\n    def auto_set_step(\n        self,\n        output_names: Sequence[str],\n        input_names: Sequence[str],\n        print_errors: bool = True,\n        numerical_error: float = EPSILON,\n    ) -> tuple[ndarray, dict[str, ndarray]]:\n        r\"\"\"Compute the optimal step.\n\n        Require a first evaluation of the perturbed functions values.\n\n        The optimal step is reached when the truncation error\n        (cut in the Taylor development),\n        and the numerical cancellation errors\n        (round-off when doing :math:`f(x+step)-f(x))` are equal.\n\n        Args:\n            input_names: The names of the inputs used to differentiate the outputs.\n            output_names: The names of the outputs to be differentiated.\n            print_errors: Whether to log the cancellation\n                and truncation error estimates.\n            numerical_error: The numerical error\n                associated to the calculation of :math:`f`.\n                By default, Machine epsilon (appx 1e-16),\n                but can be higher.\n                when the calculation of :math:`f` requires a numerical resolution.\n\n        See Also:\n            https://en.wikipedia.org/wiki/Numerical_differentiation\n            and *Numerical Algorithms and Digital Representation*,\n            Knut Morken, Chapter 11, \"Numerical Differentiation\"\n\n        Returns:\n            The Jacobian of the function.\n        \"\"\"\n        self._create_approximator(output_names, input_names)\n\n        x_vect = self._prepare_xvect(\n            input_names, self.discipline.io.input_grammar.defaults\n        )\n        with self.__set_zero_cache_tol():\n            steps_opt, errors = self.approximator.compute_optimal_step(\n                x_vect, numerical_error=numerical_error\n            )\n\n        if print_errors:\n            LOGGER.info(\n                \"Set optimal step for finite differences. \"\n                \"Estimated approximation errors =\"\n            )\n            LOGGER.info(errors)\n\n        data = self.discipline.io.input_grammar.defaults or self.discipline.io.data\n        names_to_slices = (\n            self.discipline.io.input_grammar.data_converter.compute_names_to_slices(\n                input_names,\n                data,\n            )[0]\n        )\n\n        self.auto_steps = (\n            self.discipline.io.input_grammar.data_converter.convert_array_to_data(\n                steps_opt, names_to_slices\n            )\n        )\n\n        return errors, self.auto_steps\n\n    @contextmanager\n    def __set_zero_cache_tol(self) -> None:\n        \"\"\"A context manager to temporary set the discipline cache tolerance to zero.\"\"\"\n        if self.discipline.cache is not None:\n            old_cache_tol = self.discipline.cache.tolerance\n            self.discipline.cache.tolerance = 0.0\n            yield\n            self.discipline.cache.tolerance = old_cache_tol\n        else:\n", "new": "        self.discipline = discipline\n        self.__cache = discipline.cache\n        self.approx_method = approx_method\n        self.step = step\n        self.generator = self.generator_class(discipline)\n        self.func = None\n        self.approximator = None\n        self.auto_steps = {}\n        self.__par_args = {\n            \"n_processes\": n_processes,\n            \"use_threading\": use_threading,\n            \"wait_time_between_fork\": wait_time_between_fork,\n        }\n        self.__parallel = parallel\n\n    def _create_approximator(\n        self,\n        output_names: Sequence[str],\n        input_names: Sequence[str],\n    ) -> None:\n        \"\"\"Create the Jacobian approximation class.\n\n        Args:\n            input_names: The names of the inputs used to differentiate the outputs.\n            output_names: The names of the outputs to be differentiated.\n\n        Raises:\n            ValueError: If the Jacobian approximation method is unknown.\n        \"\"\"\n        self.func = self.generator.get_function(input_names, output_names)\n        self.approximator = GradientApproximatorFactory().create(\n            self.approx_method,\n            self.func.evaluate,\n            step=self.step,\n            parallel=self.__parallel,\n            **self.__par_args,\n        )\n\n    def auto_set_step(\n        self,\n        output_names: Sequence[str],\n        input_names: Sequence[str],\n        print_errors: bool = True,\n        numerical_error: float = EPSILON,\n    ) -> tuple[ndarray, dict[str, ndarray]]:\n        r\"\"\"Compute the optimal step.\n\n        Require a first evaluation of the perturbed functions values.\n\n        The optimal step is reached when the truncation error\n        (cut in the Taylor development),\n        and the numerical cancellation errors\n        (round-off when doing :math:`f(x+step)-f(x))` are equal.\n\n        Args:\n            input_names: The names of the inputs used to differentiate the outputs.\n            output_names: The names of the outputs to be differentiated.\n            print_errors: Whether to log the cancellation\n                and truncation error estimates.\n            numerical_error: The numerical error\n                associated to the calculation of :math:`f`.\n                By default, Machine epsilon (appx 1e-16),\n                but can be higher.\n                when the calculation of :math:`f` requires a numerical resolution.\n\n        See Also:\n            https://en.wikipedia.org/wiki/Numerical_differentiation\n            and *Numerical Algorithms and Digital Representation*,\n            Knut Morken, Chapter 11, \"Numerical Differentiation\"\n\n        Returns:\n            The Jacobian of the function.\n        \"\"\"\n        self._create_approximator(output_names, input_names)\n\n        x_vect = self._prepare_xvect(\n            input_names, self.discipline.io.input_grammar.defaults\n        )\n        with self.__set_zero_cache_tol():\n            steps_opt, errors = self.approximator.compute_optimal_step(\n                x_vect, numerical_error=numerical_error\n            )\n\n        if print_errors:\n            LOGGER.info(\n                \"Set optimal step for finite differences. \"\n                \"Estimated approximation errors =\"\n            )\n            LOGGER.info(errors)\n\n        data = self.discipline.io.input_grammar.defaults or self.discipline.io.data\n        names_to_slices = (\n            self.discipline.io.input_grammar.data_converter.compute_names_to_slices(\n                input_names,\n                data,\n            )[0]\n        )\n\n        self.auto_steps = (\n            self.discipline.io.input_grammar.data_converter.convert_array_to_data(\n                steps_opt, names_to_slices\n            )\n        )\n\n        return errors, self.auto_steps\n\n    @contextmanager\n    def __set_zero_cache_tol(self) -> None:\n        \"\"\"A context manager to temporary set the discipline cache tolerance to zero.\"\"\"\n        cache = self.__cache\n        if cache is not None:\n            old_cache_tol = cache.tolerance\n            cache.tolerance = 0.0\n            yield\n            cache.tolerance = old_cache_tol\n        else:\n", "expect": "5.11", "note": "DisciplineJacApprox zeroes the tolerance of the cache captured at construction, "},
     {"name": "hit-converts-inside-the-stored-entry", "file": BD, "old": "            cache_output = cache_entry.outputs.copy()\n", "new": "            cache_output = cache_entry.outputs\n", "expect": "5.9"},
     {"name": "simple-cache-keeps-the-callers-jacobian", "file": "caches/simple_cache.py", "old": "        self.__inputs = deepcopy_dict_of_arrays(input_data)\n        self.__jacobian = deepcopy_dict_of_arrays(jacobian_data)", "new": "        self.__inputs = deepcopy_dict_of_arrays(input_data)\n        self.__jacobian = jacobian_data", "expect": "5.2"},
